@@ -295,6 +295,33 @@ SIGS = [
     ("curve_helpers", "full_reduce", ["MN"]),
     ("curve_helpers", "vec_size", ["MN", "S"]),
     ("curve_helpers", "compute_length", ["MN"]),
+    # phase 4 (pyalgebraic)
+    ("algebraic_intersection", "_evaluate3", ["M2N", "S", "S"]),
+    ("algebraic_intersection", "evaluate", ["M2N", "S", "S"]),
+    ("algebraic_intersection", "eval_intersection_polynomial", ["M2N", "MN", "S"]),
+    ("algebraic_intersection", "_to_power_basis11", ["M2N", "MN"]),
+    ("algebraic_intersection", "_to_power_basis12", ["M2N", "MN"]),
+    ("algebraic_intersection", "_to_power_basis13", ["M2N", "MN"]),
+    ("algebraic_intersection", "_to_power_basis_degree4", ["M2N", "MN"]),
+    ("algebraic_intersection", "_to_power_basis23", ["M2N", "MN"]),
+    ("algebraic_intersection", "_to_power_basis_degree8", ["M2N", "MN"]),
+    ("algebraic_intersection", "_to_power_basis33", ["M2N", "MN"]),
+    ("algebraic_intersection", "to_power_basis", ["M2N", "MN"]),
+    ("algebraic_intersection", "polynomial_norm", ["V"]),
+    ("algebraic_intersection", "normalize_polynomial", ["VW", "S"]),
+    ("algebraic_intersection", "poly_to_power_basis", ["V"]),
+    ("algebraic_intersection", "_get_sigma_coeffs", ["V"]),
+    ("algebraic_intersection", "bernstein_companion", ["V"]),
+    ("algebraic_intersection", "lu_companion", ["V", "S"]),
+    ("algebraic_intersection", "all_intersections", ["M2N", "M2N"]),
+    ("algebraic_intersection", "roots_in_unit_interval", ["V"]),
+    ("algebraic_intersection", "_strip_leading_zeros", ["V", "S"]),
+    ("algebraic_intersection", "bezier_roots", ["V"]),
+    ("algebraic_intersection", "_reciprocal_condition_number", ["MN", "S"]),
+    ("algebraic_intersection", "bezier_value_check", ["V", "S", "S"]),
+    ("algebraic_intersection", "locate_point", ["M2N", "S", "S"]),
+    ("algebraic_intersection", "_check_non_simple", ["V"]),
+    ("algebraic_intersection", "_resolve_and_add", ["MN", "S", ("mlist", ("opt", "S", "nan")), "MN", "S", ("mlist", ("opt", "S", "nan"))]),
 ]
 # phase 4 (pyclassify): the kind of the result where the returned literals alone do not determine it (`([], None)`)
 OUTCOME = ("tuple", (("opt", ("list", ("list", ("tuple", ("N", "S", "S")))), "none"), ("opt", "B", "none")))
@@ -729,6 +756,218 @@ def ravelF (m : List (List K)) : List K := (Model.transpose m).flatten
 
 end Rt
 """
+# ------------------------------------------------------------------ phase 4 (pyalgebraic): hazmat/algebraic_intersection.py
+# TRUSTED additions of this phase
+#  * parameter kind VW: a 1-D array (List K) that the function may overwrite in place (`coeffs /= l2_norm`): the new
+#    contents are the value of the variable from then on (and what `return coeffs` delivers); that the CALLER's array
+#    is changed as well is a side effect that is NOT modelled - a translated call site must pass a fresh temporary
+#    (an argument that is a plain variable is refused).
+#  * shims of the pure-Python configuration: `bezier._curve_helpers` etc. bind the hazmat modules.
+#  * external numerics called by the translated functions are explicit parameters of the generated definitions
+#    (nothing is assumed about them): `np.linalg.det` -> `np_linalg_det : List (List K) → K`,
+#    `numpy.polynomial.polynomial.polyfit(x, y, deg)` -> `polyfit : List K → List K → Nat → List K`, `np.sqrt` -> `sqrt`.
+#  * module constants that are 1-D array literals (`_CHEB7 = np.asfortranarray([float.fromhex(..), ..])`) are emitted
+#    as `<module>.<NAME without leading _> : List K` with the exact binary64 values; a list comprehension over such a
+#    constant is unrolled (like a loop over a literal tuple).
+#  * meaning of the new primitives: see RUNTIME_PYALGEBRAIC; unpacking a 1-D array into n names is `Rt.unpackN`
+#    (`ValueError` unless it has exactly n entries); `2-row array - np.asfortranarray([[a], [b]])` subtracts `a` from
+#    row 0 and `b` from row 1 (NumPy broadcasting of a 2 x 1 column against a 2 x N array); `v op s` / `s op v` of a
+#    1-D array and a scalar acts entry by entry; `np.zeros(v.shape)` is as many zeros as `v` has entries; `np.zeros((a, b))`
+#    is the a x b zero array; `x[r0:r1, c0:c1] = e` (x created in the function) requires e of exactly that shape
+#    (`badInput` otherwise: broadcasting of e is not modelled); `x[:, lo:hi] *= c` scales those columns.
+#  * further statements / expressions of this phase (each refused outside the stated form):
+#      `x = None` + `if x is None:` / `is not None` (a maybe-None variable; inside the other arm it is a plain value),
+#      `break` in a `for` (not together with `return` / `raise` in the same loop) -> `Rt.forB` / `Rt.forBM`,
+#      `while test(x): x = e(x)` for ONE 1-D array x -> `Rt.whileA` (merge: renamed, `Rt.whileM` is the pycurve loop) with fuel `len(x) + 1` (`Err.recursion` beyond: an answer
+#      the code cannot give, so the equality theorem shows the fuel suffices),
+#      `range(a, -1, -1)` (a, .., 0), `range(i + 1, n)`, truth value of a Python int, `[c] * n` (list repetition, as a 1-D
+#      array; any other arithmetic with a list LITERAL is refused), `v[i]`, `v[lo:hi]`, `v[::-1]`, `-v`, `v[i] op= c`,
+#      `x[i, j] = c` / `x[i, j]` (Python index conventions, `IndexError` = `badInput`), `x[i, :] = v`,
+#      `x.flat[start::step] = c` (row-major positions), `np.empty((0,))`, `np.empty((d, 0))`, `np.hstack([a, b])`,
+#      1-D COMPLEX arrays (kind VC = List (K x K), entries (re, im)): `.real`, `.imag`, `z + c`, `c + z`, `z / w`
+#      (textbook formula `Rt.cdiv`), `np.abs(z)` = `sqrt (re*re + im*im)` with the abstract `sqrt`, a real array where a complex
+#      one is expected is embedded with imaginary part 0; boolean arrays: `v < c`, `c < v`, `a & b`, `x[mask]`;
+#      a module constant naming an enum member of another module (`_DISJOINT`), comparison of enum members by their integers;
+#      `import <external module>` inside a function and `_f = <external module>.<function>` (a local name for an ABSTRACT
+#      function, bound once); `return None, 0, 0` next to `return x, degree, n`: an integer CONSTANT in a tuple position where
+#      another `return` delivers a Python int is that int.
+MODULES.update({
+    "bezier._curve_helpers": "curve_helpers",                  # shims, pure-Python configuration
+    "bezier._geometric_intersection": "geometric_intersection",
+    "bezier._intersection_helpers": "intersection_helpers",
+    "bezier.hazmat.algebraic_intersection": "algebraic_intersection",
+    "numpy.polynomial.polynomial": "numpy.polynomial",         # external: only ABSTRACT callees
+})
+ABSTRACT.update({
+    ("algebraic_intersection", "intersect_curves"): (["MN", "MN"], "MN", True),
+    ("numpy", "np_linalg_det"): (["MN"], "S", False),
+    ("numpy", "np_linalg_eigvals"): (["MN"], "VC", False),
+    ("numpy.polynomial", "polyfit"): (["V", "V", "N"], "V", False),
+    ("numpy.polynomial", "polyroots"): (["V"], "VC", False),
+    ("numpy.polynomial", "polyval"): (["V", "V"], "V", False),
+    ("numpy.polynomial", "polyder"): (["V"], "V", False),
+    ("numpy.polynomial", "polycompanion"): (["V"], "MN", False),
+    ("numpy", "np_linalg_matrix_rank"): (["MN"], "N", False),
+    ("curve_helpers", "full_reduce"): (["MN"], "MN", True),
+    ("scipy.linalg.lapack", "dgecon"): (["MN", "S"], ("tuple", ("S", "I")), False),
+})
+LEAN_KEYWORDS |= {fn for _, fn in ABSTRACT}
+
+# external modules whose `import` inside a function body is skipped (an import has no effect on the values computed), and
+# whose functions may be bound to a local name (`_dgecon = scipy.linalg.lapack.dgecon`): calls through that name are calls
+# of the ABSTRACT function
+EXTERNAL_IMPORTS = {"scipy.linalg.lapack"}
+
+RUNTIME_PYALGEBRAIC = """\
+
+/-! ### phase 4 (pyalgebraic): unpacking, blocks of a 2-D array -/
+namespace Rt
+
+/-- `a, b = v` for a 1-D array `v` (`ValueError` unless it has exactly two entries) -/
+def unpack2 (v : List K) : Except Err (K × K) :=
+  match v with
+  | [a, b] => .ok (a, b)
+  | _ => .error .valueError
+
+/-- `a, b, c = v` -/
+def unpack3 (v : List K) : Except Err (K × K × K) :=
+  match v with
+  | [a, b, c] => .ok (a, b, c)
+  | _ => .error .valueError
+
+/-- `a, b, c, d = v` -/
+def unpack4 (v : List K) : Except Err (K × K × K × K) :=
+  match v with
+  | [a, b, c, d] => .ok (a, b, c, d)
+  | _ => .error .valueError
+
+/-- `x[:, lo:hi] op= c` row by row: the entries of the stretch are replaced by their images under `f` -/
+def mapCols (f : K → K) (m : List (List K)) (lo hi : Option Int) : List (List K) :=
+  m.map fun r =>
+    let a := match lo with
+      | none => 0
+      | some i => sliceIdx r.length i
+    let b := match hi with
+      | none => r.length
+      | some i => sliceIdx r.length i
+    r.take a ++ ((r.drop a).take (b - a)).map f ++ r.drop (max a b)
+
+/-- `x[rlo:rhi, clo:chi] = e`: `e` must have exactly the shape of the replaced block (`badInput`; broadcasting of `e`
+    is not modelled) -/
+def setBlock (m : List (List K)) (rlo rhi clo chi : Option Int) (e : List (List K)) : Except Err (List (List K)) :=
+  let a := match rlo with
+    | none => 0
+    | some i => sliceIdx m.length i
+  let b := match rhi with
+    | none => m.length
+    | some i => sliceIdx m.length i
+  if e.length = b - a then
+    bind (setCols ((m.drop a).take (b - a)) clo chi e) fun mid => .ok (m.take a ++ mid ++ m.drop (max a b))
+  else .error .badInput
+
+/-- `for x in xs:` with `break`: the step answers `Sum.inl state` (leave the loop) or `Sum.inr state` (go on) -/
+def forB {α σ : Type} (xs : List α) (init : σ) (step : σ → α → σ ⊕ σ) : σ :=
+  match xs with
+  | [] => init
+  | x :: xs =>
+    match step init x with
+    | .inl s => s
+    | .inr s => forB xs s step
+
+/-- the same where the step can raise -/
+def forBM {α σ : Type} (xs : List α) (init : σ) (step : σ → α → Except Err (σ ⊕ σ)) : Except Err σ :=
+  match xs with
+  | [] => .ok init
+  | x :: xs =>
+    bind (step init x) fun res =>
+      match res with
+      | .inl s => .ok s
+      | .inr s => forBM xs s step
+
+/-- `x.flat[start::step] = c` for a 2-D array (rows of the length of the first row): the entries at the row-major
+    positions `start, start + step, ...` (`ValueError` for `step = 0`) -/
+def setFlat (m : List (List K)) (start step : Nat) (c : K) : Except Err (List (List K)) :=
+  if step = 0 then .error .valueError
+  else
+    let nc := (m.headD []).length
+    .ok (m.mapIdx fun r row => row.mapIdx fun j x =>
+      if start ≤ r * nc + j ∧ (r * nc + j - start) % step = 0 then c else x)
+
+/-- `x[i, :] = v`: `v` must have as many entries as the row (`ValueError`; broadcasting of a one-entry `v` is not
+    modelled), `IndexError` (`badInput`) without such a row -/
+def setRow (m : List (List K)) (i : Nat) (v : List K) : Except Err (List (List K)) :=
+  match m[i]? with
+  | none => .error .badInput
+  | some r => if r.length = v.length then .ok (m.set i v) else .error .valueError
+
+/-- `while test(s): s = step(s)` with at most `fuel` rounds (`Err.recursion` when they do not suffice) -/
+def whileA {σ : Type} (fuel : Nat) (s : σ) (test : σ → Except Err Bool) (step : σ → Except Err σ) : Except Err σ :=
+  match fuel with
+  | 0 => .error .recursion
+  | f + 1 => bind (test s) fun c => if c then bind (step s) fun s' => whileA f s' test step else .ok s
+
+/-- complex division `(a + bi) / (c + di)` by the textbook formula (exact arithmetic; NumPy's scaling against overflow is
+    a matter of rounding) -/
+def cdiv (z w : K × K) : K × K :=
+  let n := w.1 * w.1 + w.2 * w.2
+  ((z.1 * w.1 + z.2 * w.2) / n, (z.2 * w.1 - z.1 * w.2) / n)
+
+/-- elementwise operation of two 1-D complex arrays of equal length (anything else `ValueError`) -/
+def czip (f : K × K → K × K → K × K) (a b : List (K × K)) : Except Err (List (K × K)) :=
+  if a.length = b.length then .ok (List.zipWith f a b) else .error .valueError
+
+/-- `np.argmin(v)`: index of the first minimum (`ValueError` on an empty array) -/
+def argmin (v : List K) : Except Err Nat :=
+  match v with
+  | [] => .error .valueError
+  | x :: rest =>
+    .ok (rest.foldl (fun (st : Nat × K × Nat) y =>
+      if y < st.2.1 then (st.2.2, y, st.2.2 + 1) else (st.1, st.2.1, st.2.2 + 1)) (0, x, 1)).1
+
+/-- `a & b` of two boolean arrays (equal lengths; anything else `ValueError`: broadcasting is not modelled) -/
+def band (a b : List Bool) : Except Err (List Bool) :=
+  if a.length = b.length then .ok (List.zipWith (fun x y => x && y) a b) else .error .valueError
+
+/-- `x[mask]` with a boolean array of the same length (`IndexError`: `badInput`) -/
+def mask {α : Type} (x : List α) (m : List Bool) : Except Err (List α) :=
+  if x.length = m.length then .ok (((x.zip m).filter fun p => p.2).map fun p => p.1) else .error .badInput
+
+/-- position of the Python index `i` in a sequence of length `n` (negative indices count from the end) -/
+def pyIdx (n : Nat) (i : Int) : Option Nat :=
+  if 0 ≤ i then (if i.toNat < n then some i.toNat else none)
+  else if -(n : Int) ≤ i then some ((n : Int) + i).toNat
+  else none
+
+/-- `x[i, j] = c` for a 2-D array created in the function (`IndexError`: `badInput`) -/
+def setCell (m : List (List K)) (i j : Int) (c : K) : Except Err (List (List K)) :=
+  match pyIdx m.length i with
+  | none => .error .badInput
+  | some r =>
+    match m[r]? with
+    | none => .error .badInput
+    | some row =>
+      match pyIdx row.length j with
+      | none => .error .badInput
+      | some k => .ok (m.set r (row.set k c))
+
+/-- `x[i, j]` of a 2-D array (`IndexError`: `badInput`) -/
+def getCell (m : List (List K)) (i j : Int) : Except Err K :=
+  match pyIdx m.length i with
+  | none => .error .badInput
+  | some r =>
+    match m[r]? with
+    | none => .error .badInput
+    | some row => idxI row j
+
+/-- `v[i] op= c` for a 1-D array created in the function (`IndexError`: `badInput`) -/
+def updIdx (f : K → K) (v : List K) (i : Nat) : Except Err (List K) :=
+  match v[i]? with
+  | some x => .ok (v.set i (f x))
+  | none => .error .badInput
+
+end Rt
+"""
+RUNTIME += RUNTIME_PYALGEBRAIC
 
 
 class Problem(Exception):
@@ -804,6 +1043,9 @@ def lty(k):
         return "List (List (Option K))"
     if k == "R":                       # phase 4 (pycurve): a 1 x n array (row vector)
         return "List K"
+    base["VW"] = "List K"              # phase 4 (pyalgebraic)
+    base["VC"] = "List (K × K)"        # phase 4 (pyalgebraic): 1-D complex array, entries (re, im)
+    base["unit"] = "Unit"              # phase 4 (pyalgebraic): a function every `return` of which delivers None
     if isinstance(k, str) and k in base:
         return base[k]
     if isinstance(k, tuple) and k[0] == "mlist":
@@ -836,6 +1078,10 @@ def unify(a, b):
         return "REF"
     if {a, b} == {"CLS", "none"}:         # a classification or None: `Option Cls` already has the value None
         return "CLS"
+    if {a, b} == {"P", "V"}:           # phase 4 (pyalgebraic): a 2-entry array literal next to longer ones
+        return "V"
+    if {a, b} == {"V", "VC"}:          # phase 4 (pyalgebraic): a real array where the other arm has a complex one
+        return "VC"
     if is_list(a) and is_list(b):
         if a[1] is None or b[1] is None:
             return a if b[1] is None else b
@@ -966,6 +1212,20 @@ class Brk(Next):                  # phase 4 (pypipeline): `break` - leave the lo
     pass
 
 
+class BrkA(Next):                  # phase 4 (pyalgebraic): `break`: leave the enclosing loop with this state
+    pass
+
+
+class WhileIR:                    # phase 4 (pyalgebraic): while test(x): x = step(x) ; rest   (x a 1-D array, fuel len(x) + 1)
+    def __init__(self, var, init, test, step, rest):
+        self.var, self.init, self.test, self.step, self.rest = var, init, test, step, rest
+
+
+class MatchOpt:                   # phase 4 (pyalgebraic): match code with | none => then | some pat => els
+    def __init__(self, code, then, pat, els):
+        self.code, self.then, self.pat, self.els = code, then, pat, els
+
+
 class Loop:
     """for target in iter: body ; rest.   state = the variables carried from one iteration to the next"""
     def __init__(self, it, target, spat, init, sty, body, rest, has_exit, r, res):
@@ -979,6 +1239,10 @@ class P4While:                    # phase 4 (pycurve): `while cond: body ; rest`
 
 
 def impure(ir):
+    if isinstance(ir, WhileIR):           # phase 4 (pyalgebraic)
+        return True
+    if isinstance(ir, MatchOpt):          # phase 4 (pyalgebraic)
+        return impure(ir.then) or impure(ir.els)
     if isinstance(ir, (Bind, Shape, Fail)):
         return True
     if isinstance(ir, (Leaf, Yield, Next)):
@@ -1114,6 +1378,12 @@ def has_loop_jump(stmts, kinds=(ast.Break, ast.Continue)):
         if isinstance(st, (ast.With, ast.Try, ast.While)):
             return True                      # refused elsewhere
     return False
+def contains_exit_alg(stmts):     # merge: `contains_exit` as pyalgebraic knows it (a `break` is handled separately there)
+    return any(isinstance(node, (ast.Return, ast.Raise)) for st in stmts for node in ast.walk(st))
+
+
+def contains_break(stmts):        # phase 4 (pyalgebraic)
+    return any(isinstance(node, ast.Break) for st in stmts for node in ast.walk(st))
 
 
 def assigned_names(stmts, env):
@@ -1301,6 +1571,9 @@ class FunctionTranslator:
             elif k == "S1":
                 env[p] = Val("S", lp)
                 env[p].unit = True
+            elif k == "VW":                   # phase 4 (pyalgebraic)
+                env[p] = Val("V", lp)
+                env[p].writable = True
             else:
                 env[p] = Val(k, lp)
                 if is_list(k):
@@ -1311,6 +1584,7 @@ class FunctionTranslator:
         for lp, pat, names in reversed(shapes):
             if self.struct_used & set(names):      # only parameters that are indexed here (callees check theirs)
                 ir = Shape(lp, pat, ir)
+        self.harmonize_int_returns(ir)           # phase 4 (pyalgebraic)
         ret = None
         for k in self.ret_kinds:
             ret = k if ret is None else unify(ret, k)
@@ -1318,6 +1592,8 @@ class FunctionTranslator:
             raise Problem("no result")
         if (self.modname, self.fn) in RET_HINT:
             ret = unify(ret, RET_HINT[(self.modname, self.fn)])
+        if ret == "none" and not self.mut_params and self.modname == "algebraic_intersection":        # phase 4 (pyalgebraic): called for its exceptions only
+            ret = "unit"
         self.ret = ret
         rty = lty(ret)
         monadic = impure(ir)
@@ -1387,6 +1663,14 @@ class FunctionTranslator:
             return "Rt.newRef %s" % atom(val.code)
         if k == "none" and target == "CLS":
             return "none"
+        if k == "none" and target == "unit":     # phase 4 (pyalgebraic)
+            return "()"
+        if k == "V" and target == "VC":      # phase 4 (pyalgebraic): real numbers as complex numbers
+            return "List.map (fun x => (x, (0 : K))) %s" % atom(val.code)
+        if k == "P" and target == "V":       # phase 4 (pyalgebraic)
+            if val.comps is not None:
+                return "[%s, %s]" % (val.comps[0], val.comps[1])
+            return "[%s.1, %s.2]" % (atom(val.code), atom(val.code))
         if is_list(k) and is_list(target) and (k[1] is None or k[1] == target[1]):
             return val.code
         if is_opt(target):
@@ -1416,6 +1700,27 @@ class FunctionTranslator:
             if isinstance(ir, Leaf):
                 return pad + ok("Rt.Step.ret %s" % atom(self.coerce(ir.val, self.ret))) + "\n"
             return pad + ok("Rt.Step.%s %s" % ("brk" if isinstance(ir, Brk) else "next", atom(ir.code))) + "\n"
+        if isinstance(ir, WhileIR):             # phase 4 (pyalgebraic)
+            assert monadic
+            return (pad + "Rt.bind (Rt.whileA (List.length %s + 1) %s (fun %s =>\n" % (atom(ir.init), atom(ir.init), ir.var)
+                    + self.render(ir.test, True, ind + 2, ctx).rstrip("\n") + ") (fun %s =>\n" % ir.var
+                    + self.render(ir.step, True, ind + 2, ctx).rstrip("\n") + ")) fun %s =>\n" % ir.var
+                    + self.render(ir.rest, monadic, ind, ctx))
+        if isinstance(ir, BrkA):                 # phase 4 (pyalgebraic)
+            return pad + ok("Sum.inl %s" % atom(ir.code)) + "\n"
+        if isinstance(ir, MatchOpt):            # phase 4 (pyalgebraic)
+            return (pad + "(match %s with\n" % ir.code + pad + "| none =>\n" + self.render(ir.then, monadic, ind + 1, ctx)
+                    + pad + "| some %s =>\n" % ir.pat + self.render(ir.els, monadic, ind + 1, ctx).rstrip("\n") + ")\n")
+        if isinstance(ir, Loop) and getattr(ir, "has_break", False):          # phase 4 (pyalgebraic)
+            bm = impure(ir.body)
+            init = "(%s : %s)" % (ir.init, ir.sty)
+            body = self.render(ir.body, bm, ind + 2, ctx).rstrip("\n")
+            if not bm:
+                return (pad + "let %s :=\n" % ir.spat + pad + "  Rt.forB %s %s (fun %s %s =>\n" % (atom(ir.it), init, ir.spat, ir.target)
+                        + body + ")\n" + self.render(ir.rest, monadic, ind, ctx))
+            assert monadic
+            return (pad + "Rt.bind (Rt.forBM %s %s fun %s %s =>\n" % (atom(ir.it), init, ir.spat, ir.target)
+                    + body + ") fun %s =>\n" % ir.spat + self.render(ir.rest, monadic, ind, ctx))
         if isinstance(ir, Leaf):
             c = self.coerce(ir.val, self.ret)
             return pad + ok(c if ctx == "fn" else "Sum.inl %s" % atom(c)) + "\n"
@@ -1522,11 +1827,34 @@ class FunctionTranslator:
             return self.block(rest, env, k)
         if isinstance(st, ast.Expr) and isinstance(st.value, ast.Constant) and isinstance(st.value.value, str):
             return self.block(rest, env, k)            # docstring / bare string
+        if isinstance(st, ast.Import) and all(a.name in EXTERNAL_IMPORTS and a.asname is None for a in st.names):
+            return self.block(rest, env, k)        # phase 4 (pyalgebraic): `import scipy.linalg.lapack` in a function body
+        if isinstance(st, ast.Assign) and len(st.targets) == 1 and isinstance(st.targets[0], ast.Name) \
+                and isinstance(st.value, ast.Attribute) and ast.unparse(st.value).rsplit(".", 1)[0] in EXTERNAL_IMPORTS \
+                and (ast.unparse(st.value).rsplit(".", 1)[0], st.value.attr) in ABSTRACT \
+                and ast.unparse(st.value).split(".")[0] not in env and st.targets[0].id not in env:
+            # phase 4 (pyalgebraic): `_dgecon = scipy.linalg.lapack.dgecon`: a local name for an external function; it must
+            # be bound exactly once in the function
+            name = st.targets[0].id
+            nstores = sum(1 for n in ast.walk(self.mod.funcs.get(self.fn, st)) if isinstance(n, ast.Name) and n.id == name
+                          and not isinstance(n.ctx, ast.Load))
+            if nstores != 1 or "." in self.fn:
+                raise Problem("the local name %s of an external function is bound more than once (%s)" % (name, where))
+            self.__dict__.setdefault("fn_alias", {})[name] = (ast.unparse(st.value).rsplit(".", 1)[0], st.value.attr)
+            return self.block(rest, env, k)
+        if isinstance(st, ast.Break) and self.modname == "algebraic_intersection":              # phase 4 (pyalgebraic)
+            if rest:
+                raise Problem("unreachable statements after break (%s)" % where)
+            if not getattr(self, "break_stack", None):
+                raise Problem("break outside of a translated loop (%s)" % where)
+            return self.break_stack[-1](env)
         if isinstance(st, ast.Return):
             if rest:
                 raise Problem("unreachable statements after return (%s)" % where)
             if st.value is None:
                 return self.leaf(Val("none", "none"), env, where)
+            if isinstance(st.value, ast.Tuple) and self.modname == "algebraic_intersection":    # phase 4 (pyalgebraic): nothing is updated in place after the return
+                env = self.release_inplace(env)
             binds, v = self.tx(st.value, env)
             return wrap(binds, self.leaf(v, env, where))
         if isinstance(st, (ast.Break, ast.Continue)):        # phase 4 (pypipeline)
@@ -1542,6 +1870,9 @@ class FunctionTranslator:
             exc = st.exc
             if isinstance(exc, ast.Call):
                 exc = exc.func
+            if isinstance(exc, ast.Attribute) and isinstance(exc.value, ast.Name) and exc.value.id not in env \
+                    and self.mod.aliases.get(exc.value.id) not in (None, "numpy", "bisect"):
+                exc = ast.Name(id=exc.attr, ctx=ast.Load())      # phase 4 (pyalgebraic): `_py_helpers.UnsupportedDegree`
             if st.cause is not None or not isinstance(exc, ast.Name) or exc.id not in EXC:
                 raise Problem("raise of an unlisted exception (%s)" % where)
             return Fail(EXC[exc.id])
@@ -1565,6 +1896,15 @@ class FunctionTranslator:
             env2[name] = Val("C", lname(name), inplace=True)
             return wrap(binds, self.block(rest, env2, k))
         if isinstance(st, ast.AugAssign):
+            if isinstance(st.target, ast.Subscript):          # phase 4 (pyalgebraic)
+                return self.aug_subscript(st, rest, env, k, where)
+            if isinstance(st.target, ast.Name) and st.target.id in env and env[st.target.id].kind == "V" \
+                    and getattr(env[st.target.id], "writable", False):
+                new = ast.Assign(targets=[ast.Name(id=st.target.id, ctx=ast.Store())],
+                                 value=ast.BinOp(left=ast.Name(id=st.target.id, ctx=ast.Load()), op=st.op, right=st.value))
+                ast.copy_location(new, st)
+                ast.fix_missing_locations(new)
+                return self.block([new] + rest, env, k)
             ok_aug = isinstance(st.target, ast.Name) and st.target.id in env and (
                 env[st.target.id].kind in ("S", "I", "N") or (env[st.target.id].kind == "C" and env[st.target.id].inplace))
             ok_aug = ok_aug or (isinstance(st.target, ast.Name) and st.target.id in env     # phase 4 (pytri)
@@ -1605,13 +1945,24 @@ class FunctionTranslator:
                 ast.copy_location(n, st)
                 ast.fix_missing_locations(n)
             return self.block([new_if, put] + rest, env, k)
+        if isinstance(st, ast.If) and self.none_test(st.test, env) is not None:      # phase 4 (pyalgebraic)
+            # `if x is None:` / `if x is not None:` for a maybe-None variable: inside the other arm x is a plain value
+            name, positive = self.none_test(st.test, env)
+            e_none, e_some = dict(env), dict(env)
+            e_none[name] = Val("none", "none")
+            e_some[name] = Val(env[name].kind[1], lname(name))
+
+            def kk(e):
+                return self.block(rest, e, k)
+            a_none, a_some = (st.body, st.orelse) if positive else (st.orelse, st.body)
+            return MatchOpt(env[name].code, self.block(a_none, e_none, kk), lname(name), self.block(a_some, e_some, kk))
         if isinstance(st, ast.If):
             binds, c = self.tx(st.test, env)
             c = self.truth(c)
             if c.kind != "B":
                 raise Problem("condition of kind %r (%s)" % (c.kind, where))
             cond = c.prop if c.prop is not None else c.code
-            if contains_exit(st.body) or contains_exit(st.orelse):
+            if contains_exit(st.body) or contains_exit(st.orelse) or contains_break(st.body + st.orelse):
                 def kk(e):
                     return self.block(rest, e, k)
                 return wrap(binds, Ite(cond, self.block(st.body, dict(env), kk), self.block(st.orelse, dict(env), kk)))
@@ -1642,6 +1993,12 @@ class FunctionTranslator:
             env2 = dict(env)
             for n in lost:
                 env2.pop(n, None)
+            retry = [n for n in phi if {env_a[n].kind, env_b[n].kind} in ({"S", "N"}, {"S", "I"})
+                     and n not in getattr(self, "int_vars", set())]
+            if retry:
+                # phase 4 (pyalgebraic): `rank = 1` / `rank = 0` in one arm, a Python int in the other: the constants are ints
+                self.__dict__.setdefault("int_vars", set()).update(retry)
+                return self.block(stmts, env, k)
             kinds = {}
             for n in phi:
                 kd = unify(env_a[n].kind, env_b[n].kind)
@@ -1656,12 +2013,36 @@ class FunctionTranslator:
             pat = lname(phi[0]) if len(phi) == 1 else "(" + ", ".join(lname(n) for n in phi) + ")"
             ty = lty(("tuple", tuple(kinds[n] for n in phi))) if len(phi) != 1 else lty(kinds[phi[0]])
             return wrap(binds, Phi(pat, cond, ir_a, ir_b, self.block(rest, env2, k), ty if phi else "Unit"))
+        if isinstance(st, ast.While):             # phase 4 (pyalgebraic)
+            # only `while test(x): x = e(x)` for ONE 1-D array x; at most len(x) + 1 rounds are made (more: `Err.recursion`,
+            # an answer the code cannot give - the equality theorem has to show that it never occurs)
+            ok = not st.orelse and len(st.body) == 1 and isinstance(st.body[0], ast.Assign) and len(st.body[0].targets) == 1 \
+                and isinstance(st.body[0].targets[0], ast.Name) and st.body[0].targets[0].id in env \
+                and env[st.body[0].targets[0].id].kind == "V" and not env[st.body[0].targets[0].id].inplace
+            if not ok:
+                raise Problem("while loop of this form (%s)" % where)
+            name = st.body[0].targets[0].id
+            e0 = dict(env)
+            e0[name] = Val("V", lname(name))
+            tb, tc = self.tx(st.test, e0)
+            if tc.kind != "B":
+                raise Problem("condition of kind %r (%s)" % (tc.kind, where))
+            sb, sv = self.tx(st.body[0].value, e0)
+            if sv.kind != "V":
+                raise Problem("while body assigns a value of kind %r (%s)" % (sv.kind, where))
+            env2 = dict(env)
+            env2[name] = Val("V", lname(name))
+            return WhileIR(lname(name), env[name].code, wrap(tb, Yield(tc.code)), wrap(sb, Yield(sv.code)),
+                           self.block(rest, env2, k))
         raise Problem("statement %s (%s)" % (type(st).__name__, where))
 
     def truth(self, c):
         """truth value of a list: non-empty"""
         if is_list(c.kind) or c.kind in ("OL", "CSET"):
             return Val("B", "!(List.isEmpty %s)" % atom(c.code))
+        if c.kind in ("N", "I"):            # phase 4 (pyalgebraic): truth value of a Python int
+            zero = "(0 : Nat)" if c.kind == "N" else "(0 : Int)"
+            return Val("B", "decide (%s ≠ %s)" % (atom(c.code), zero), prop="%s ≠ %s" % (atom(c.code), zero))
         return c
 
     def call_stmt(self, c, rest, env, k, where):
@@ -1735,6 +2116,11 @@ class FunctionTranslator:
                 binds, av = self.tx(it.args[0], env)
                 b2, bv = self.tx(it.args[1], env)
                 binds += b2
+                if self.is_int(av) and bv.intval == -1 and self.modname == "algebraic_intersection":
+                    # phase 4 (pyalgebraic): a, a-1, ..., 0 (nothing for a < 0)
+                    n_code = ("%s + 1" % atom(self.as_nat(av))) if self.natlike(av) else \
+                        "Int.toNat (%s + 1)" % atom(self.as_int(av))
+                    return binds, "List.reverse (List.range (%s))" % n_code, "N"
                 if self.is_int(av) and bv.intval == -1:
                     # phase 4: range(a, -1, -1) = a, a-1, ..., 0   (nothing for a < 0)
                     return binds, "List.reverse (List.range (Int.toNat (%s + 1)))" % atom(self.as_int(av)), "N"
@@ -1754,6 +2140,8 @@ class FunctionTranslator:
             stop_code = self.as_nat(stop) if self.natlike(stop) else "Int.toNat %s" % atom(self.as_int(stop))
             if len(vals) == 1:
                 return binds, "List.range %s" % atom(stop_code), "N"
+            if vals[0].intval is None and vals[0].kind == "N":         # phase 4 (pyalgebraic): range(i + 1, n)
+                return binds, "List.range' %s (%s - %s)" % (atom(vals[0].code), stop_code, atom(vals[0].code)), "N"
             if vals[0].intval is None or vals[0].intval < 0:
                 raise Problem("the start of a range must be a non-negative integer constant (%s)" % where)
             return binds, "List.range' %d (%s - %d)" % (vals[0].intval, stop_code, vals[0].intval), "N"
@@ -1773,6 +2161,8 @@ class FunctionTranslator:
         raise Problem("loop over a value of kind %r (%s)" % (v.kind, where))
 
     def for_loop(self, st, rest, env, k, where):
+        if self.modname == "algebraic_intersection":      # merge: pyalgebraic renders `for` (with `break`) its own way
+            return self.for_loop_alg(st, rest, env, k, where)
         if st.orelse:
             raise Problem("for ... else (%s)" % where)
         it = st.iter
@@ -1995,6 +2385,136 @@ class FunctionTranslator:
                 return wrap(binds, Let(lname(target.id), "[(%s, %s), (%s, %s)]" % tuple(cs), self.block(rest, env2, k)))
         return None
 
+    def for_loop_alg(self, st, rest, env, k, where):
+        if st.orelse:
+            raise Problem("for ... else (%s)" % where)
+        it = st.iter
+        if isinstance(it, (ast.Tuple, ast.List)):
+            # a loop over a literal tuple is unrolled: target = e1; body; target = e2; body; ...
+            new = []
+            for e in it.elts:
+                a = ast.Assign(targets=[st.target], value=e)
+                ast.copy_location(a, st)
+                ast.fix_missing_locations(a)
+                new.append(a)
+                new.extend(st.body)
+            return self.block(new + rest, env, k)
+        if isinstance(it, ast.Call) and isinstance(it.func, ast.Name) and it.func.id == "range" and "range" not in env \
+                and len(it.args) == 1 and not it.keywords:
+            b0, n0 = self.tx(it.args[0], env)
+            if not b0 and n0.kind == "S" and n0.intval is not None and 0 <= n0.intval <= 4:
+                new = []                        # range(c) with a small constant c is unrolled as well
+                for c in range(n0.intval):
+                    a = ast.Assign(targets=[st.target], value=ast.Constant(value=c))
+                    ast.copy_location(a, st)
+                    ast.fix_missing_locations(a)
+                    new.append(a)
+                    new.extend(st.body)
+                return self.block(new + rest, env, k)
+        binds, it_code, ek = self.iterable(it, env, where)
+        if isinstance(st.target, ast.Name):
+            tnames, tkinds, tpat = [st.target.id], [ek], lname(st.target.id)
+        elif isinstance(st.target, ast.Tuple) and all(isinstance(e, ast.Name) for e in st.target.elts) \
+                and is_tuple(ek) and len(ek[1]) == len(st.target.elts):
+            tnames, tkinds = [e.id for e in st.target.elts], list(ek[1])
+            tpat = "(" + ", ".join(lname(n) for n in tnames) + ")"
+        else:
+            raise Problem("loop target does not fit elements of kind %r (%s)" % (ek, where))
+        has_exit = contains_exit_alg(st.body)
+
+        def own_break(stmts_):              # phase 4 (pyalgebraic): a `break` of THIS loop (not of a nested one)
+            for s_ in stmts_:
+                if isinstance(s_, ast.Break):
+                    return True
+                if isinstance(s_, ast.If) and (own_break(s_.body) or own_break(s_.orelse)):
+                    return True
+            return False
+        has_break = own_break(st.body)
+        if has_break and has_exit:
+            raise Problem("a loop with both `break` and `return` / `raise` (%s)" % where)
+        if contains_break(st.body) and not has_break:
+            raise Problem("`break` in a nested position that is not understood (%s)" % where)
+        names = assigned_names(st.body, env)
+        if any(n in tnames for n in names):
+            raise Problem("the loop variable is re-bound in the loop (%s)" % where)
+        carried = [n for n in env if n in names]      # in the order of their definition before the loop
+        lost = [n for n in names if n not in carried] + [n for n in tnames if n != "_"]
+        kinds = {n: env[n].kind for n in carried}
+
+        def run_body(final):
+            envs = []
+
+            def kb(e):
+                envs.append(e)
+                if not final:
+                    return Yield("?")
+                cs = [self.coerce(e[n], kinds[n]) for n in carried]
+                code = "()" if not cs else cs[0] if len(cs) == 1 else "(" + ", ".join(cs) + ")"
+                return Next(code) if (has_exit or has_break) else Yield(code)
+
+            def kbrk(e):                    # phase 4 (pyalgebraic): `break` leaves the loop with the current state
+                envs.append(e)
+                if not final:
+                    return Yield("?")
+                cs = [self.coerce(e[n], kinds[n]) for n in carried]
+                return BrkA("()" if not cs else cs[0] if len(cs) == 1 else "(" + ", ".join(cs) + ")")
+            e0 = dict(env)
+            for n in carried:
+                e0[n] = Val(kinds[n], lname(n), inplace=env[n].inplace)
+                e0[n].unit, e0[n].wide = env[n].unit, env[n].wide
+            for n, kd in zip(tnames, tkinds):
+                if n != "_":
+                    e0[n] = Val(kd, lname(n))
+            if has_break:
+                self.__dict__.setdefault("break_stack", []).append(kbrk)
+                try:
+                    return self.block(st.body, e0, kb), envs
+                finally:
+                    self.break_stack.pop()
+            return self.block(st.body, e0, kb), envs
+        keep = (self.ntmp, len(self.ret_kinds), len(self.plain_rets))
+        for _ in range(4):
+            _, envs = run_body(False)
+            self.ntmp = keep[0]
+            del self.ret_kinds[keep[1]:]
+            del self.plain_rets[keep[2]:]
+            new = dict(kinds)
+            for e in envs:
+                for n in carried:
+                    if n not in e:
+                        raise Problem("variable %s may be unbound after an iteration (%s)" % (n, where))
+                    new[n] = unify(new[n], e[n].kind)
+            if new == kinds:
+                break
+            kinds = new
+        else:
+            raise Problem("the kinds of the loop-carried variables do not settle (%s)" % where)
+        for n in carried:
+            if is_tuple(kinds[n]) or kinds[n] in ("none", "nan", "VB") or (is_list(kinds[n]) and kinds[n][1] is None):
+                raise Problem("loop-carried variable %s of kind %r (%s)" % (n, kinds[n], where))
+        body_ir, _ = run_body(True)
+        if not carried and not has_exit and not impure(body_ir):
+            raise Problem("loop without effect (%s)" % where)
+        env2 = dict(env)
+        for n in lost:
+            env2.pop(n, None)
+        for n in carried:
+            env2[n] = Val(kinds[n], lname(n), inplace=env[n].inplace)
+            env2[n].unit, env2[n].wide = env[n].unit, env[n].wide
+        inits = [self.coerce(env[n], kinds[n]) for n in carried]
+        if not carried:
+            spat, init, sty = "()", "()", "Unit"
+        elif len(carried) == 1:
+            spat, init, sty = lname(carried[0]), inits[0], lty(kinds[carried[0]])
+        else:
+            spat = "(" + ", ".join(lname(n) for n in carried) + ")"
+            init = "(" + ", ".join(inits) + ")"
+            sty = lty(("tuple", tuple(kinds[n] for n in carried)))
+        r, res = self.tmp(), self.tmp()
+        loop_ir = Loop(it_code, tpat, spat, init, sty, body_ir, self.block(rest, env2, k), has_exit, r, res)
+        loop_ir.has_break = has_break       # phase 4 (pyalgebraic)
+        return wrap(binds, loop_ir)
+
     def slice_assign(self, target, value, rest, env, k, where):
         """`x[:] = e` for an array x created by np.empty: x is (re-)bound to e"""
         sl = target.slice
@@ -2011,6 +2531,73 @@ class FunctionTranslator:
         full = is_full(sl)
         if isinstance(target.value, ast.Name) and target.value.id in env and env[target.value.id].kind in ("MC", "MR"):
             return self.mc_assign(target.value.id, sl, value, rest, env, k, where)
+        if isinstance(target.value, ast.Attribute) and target.value.attr == "flat" and isinstance(target.value.value, ast.Name) \
+                and target.value.value.id in env and env[target.value.value.id].kind == "MN" \
+                and env[target.value.value.id].inplace and not env[target.value.value.id].wide \
+                and isinstance(sl, ast.Slice) and sl.lower is not None and sl.upper is None and sl.step is not None:
+            # phase 4 (pyalgebraic): `x.flat[start::step] = c` for a 2-D array x created in this function
+            name = target.value.value.id
+            binds, a = self.tx(sl.lower, env)
+            b2, b = self.tx(sl.step, env)
+            binds += b2
+            b3, c = self.tx(value, env)
+            binds += b3
+            if not (self.natlike(a) and self.natlike(b)):
+                raise Problem("flat slice with bounds of kinds %r, %r (%s)" % (a.kind, b.kind, where))
+            c = self.as_scalar(binds, c, "array entry (%s)" % where)
+            binds.append(("bind", lname(name), "Rt.setFlat %s %s %s %s"
+                          % (lname(name), atom(self.as_nat(a)), atom(self.as_nat(b)), atom(c.code))))
+            env2 = dict(env)
+            env2[name] = Val("MN", lname(name), inplace=True)
+            return wrap(binds, self.block(rest, env2, k))
+        if isinstance(target.value, ast.Name) and target.value.id in env and env[target.value.id].kind == "MN" \
+                and env[target.value.id].inplace and not env[target.value.id].wide and target.value.id not in self.prealloc \
+                and isinstance(sl, ast.Tuple) and len(sl.elts) == 2 and not any(isinstance(x, ast.Slice) for x in sl.elts):
+            # phase 4 (pyalgebraic): `x[i, j] = c` for a 2-D array x created in this function
+            name = target.value.id
+            binds, iv = self.tx(sl.elts[0], env)
+            b2, jv = self.tx(sl.elts[1], env)
+            binds += b2
+            b3, c = self.tx(value, env)
+            binds += b3
+            if not (self.is_int(iv) and self.is_int(jv)):
+                raise Problem("cell assignment with indices of kinds %r, %r (%s)" % (iv.kind, jv.kind, where))
+            c = self.as_scalar(binds, c, "array entry (%s)" % where)
+            binds.append(("bind", lname(name), "Rt.setCell %s %s %s %s"
+                          % (lname(name), atom(self.as_int(iv)), atom(self.as_int(jv)), atom(c.code))))
+            env2 = dict(env)
+            env2[name] = Val("MN", lname(name), inplace=True)
+            return wrap(binds, self.block(rest, env2, k))
+        if isinstance(target.value, ast.Name) and target.value.id in env and env[target.value.id].kind == "MN" \
+                and env[target.value.id].inplace and not env[target.value.id].wide and target.value.id not in self.prealloc \
+                and isinstance(sl, ast.Tuple) and len(sl.elts) == 2 and is_full(sl.elts[1]) \
+                and not isinstance(sl.elts[0], ast.Slice):
+            # phase 4 (pyalgebraic): `x[i, :] = v` for a 2-D array x created in this function
+            name = target.value.id
+            binds, iv = self.tx(sl.elts[0], env)
+            b2, v = self.tx(value, env)
+            binds += b2
+            if not self.natlike(iv) or v.kind != "V":
+                raise Problem("row assignment with index of kind %r and value of kind %r (%s)" % (iv.kind, v.kind, where))
+            binds.append(("bind", lname(name), "Rt.setRow %s %s %s" % (lname(name), atom(self.as_nat(iv)), atom(v.code))))
+            env2 = dict(env)
+            env2[name] = Val("MN", lname(name), inplace=True)
+            return wrap(binds, self.block(rest, env2, k))
+        if isinstance(target.value, ast.Name) and target.value.id in env and env[target.value.id].kind == "MN" \
+                and env[target.value.id].inplace and not env[target.value.id].wide and target.value.id not in self.prealloc \
+                and isinstance(sl, ast.Tuple) and len(sl.elts) == 2 and all(isinstance(x, ast.Slice) for x in sl.elts):
+            # phase 4 (pyalgebraic): `x[r0:r1, c0:c1] = e` for a 2-D array x created in this function (np.zeros)
+            name = target.value.id
+            binds, v = self.tx(value, env)
+            if v.kind != "MN" or v.wide:
+                raise Problem("block assignment of a value of kind %r (%s)" % (v.kind, where))
+            rlo, rhi = self.slice_bounds(binds, sl.elts[0], env, where)
+            clo, chi = self.slice_bounds(binds, sl.elts[1], env, where)
+            binds.append(("bind", lname(name), "Rt.setBlock %s %s %s %s %s %s"
+                          % (lname(name), rlo, rhi, clo, chi, atom(v.code))))
+            env2 = dict(env)
+            env2[name] = Val("MN", lname(name), inplace=True)
+            return wrap(binds, self.block(rest, env2, k))
         if isinstance(target.value, ast.Name) and isinstance(self.prealloc.get(target.value.id), tuple) \
                 and isinstance(sl, ast.Tuple) and len(sl.elts) == 3 and is_full(sl.elts[0]):
             return self.wide_assign(target.value.id, sl.elts[1], sl.elts[2], value, rest, env, k, where)
@@ -2195,6 +2782,142 @@ class FunctionTranslator:
         env2[name] = part
         return wrap(binds, self.block(rest, env2, k))
 
+    def release_inplace(self, env):
+        """phase 4 (pyalgebraic): the environment of a `return (..)` expression: arrays created in the function are plain values"""
+        out = dict(env)
+        for n, v in env.items():
+            if v.inplace and v.kind in ("V", "MN") and not v.wide:
+                c = Val(v.kind, v.code)
+                out[n] = c
+        return out
+
+    def none_test(self, test, env):
+        """phase 4 (pyalgebraic): `x is None` -> (x, True), `x is not None` -> (x, False) for a maybe-None variable x"""
+        if self.modname != "algebraic_intersection":      # merge: the other modules render `is None` their own way
+            return None
+        if isinstance(test, ast.Compare) and len(test.ops) == 1 and isinstance(test.ops[0], (ast.Is, ast.IsNot)) \
+                and isinstance(test.left, ast.Name) and test.left.id in env and isinstance(test.comparators[0], ast.Constant) \
+                and test.comparators[0].value is None and is_opt(env[test.left.id].kind) and env[test.left.id].kind[2] == "none" \
+                and env[test.left.id].code == lname(test.left.id):
+            return test.left.id, isinstance(test.ops[0], ast.Is)
+        return None
+
+    def harmonize_int_returns(self, ir):
+        """phase 4 (pyalgebraic): `return None, 0, 0` next to `return x, degree, n`: an integer CONSTANT in a position of a
+        returned tuple where another `return` delivers a Python int is that int (not a float)"""
+        leaves = []
+
+        def walk(x):
+            if isinstance(x, Leaf):
+                leaves.append(x)
+            elif isinstance(x, (Let, Shape)):
+                walk(x.body)
+            elif isinstance(x, Bind):
+                if isinstance(x.code, MIf):
+                    walk(x.code.then)
+                    walk(x.code.els)
+                walk(x.body)
+            elif isinstance(x, (Ite, MatchOpt)):
+                walk(x.then)
+                walk(x.els)
+            elif isinstance(x, Phi):
+                walk(x.then)
+                walk(x.els)
+                walk(x.body)
+            elif isinstance(x, Loop):
+                walk(x.body)
+                walk(x.rest)
+            elif isinstance(x, WhileIR):
+                walk(x.rest)
+        walk(ir)
+        vals = [l.val for l in leaves]
+        if len(vals) < 2 or not all(is_tuple(v.kind) and v.comps and all(isinstance(c, Val) for c in v.comps) for v in vals) \
+                or len({len(v.comps) for v in vals}) != 1 or self.mut_params:
+            return
+        changed = False
+        for i in range(len(vals[0].comps)):
+            kinds_i = [v.comps[i].kind for v in vals]
+            if any(kd in ("I", "N") for kd in kinds_i) and any(kd == "S" for kd in kinds_i):
+                for v in vals:
+                    c = v.comps[i]
+                    if c.kind == "S" and c.intval is not None:
+                        v.comps[i] = Val("N", "(%d : Nat)" % c.intval) if c.intval >= 0 else Val("I", "(%d : Int)" % c.intval)
+                        changed = True
+        if changed:
+            for v in vals:
+                v.kind = ("tuple", tuple(c.kind for c in v.comps))
+                v.code = "(" + ", ".join(c.code for c in v.comps) + ")"
+            self.ret_kinds = [v.kind for v in vals]
+
+    def aug_subscript(self, st, rest, env, k, where):
+        """phase 4 (pyalgebraic): `x[:, lo:hi] *= c` / `/= c` for a 2-D array x created in this function"""
+        t = st.target
+        sl = t.slice
+        if isinstance(t.value, ast.Name) and t.value.id in env and env[t.value.id].kind == "V" and env[t.value.id].inplace \
+                and not isinstance(sl, (ast.Tuple, ast.Slice)) and isinstance(st.op, (ast.Mult, ast.Div, ast.Add, ast.Sub)):
+            # `v[i] op= c` for a 1-D array created in this function
+            name = t.value.id
+            binds, iv = self.tx(sl, env)
+            if not self.natlike(iv):
+                raise Problem("index of kind %r in an augmented assignment (%s)" % (iv.kind, where))
+            b2, c = self.tx(st.value, env)
+            binds += b2
+            c = self.as_scalar(binds, c, "operand of an augmented assignment (%s)" % where)
+            op = {ast.Mult: "*", ast.Div: "/", ast.Add: "+", ast.Sub: "-"}[type(st.op)]
+            binds.append(("bind", lname(name), "Rt.updIdx (fun x => x %s %s) %s %s"
+                          % (op, atom(c.code), lname(name), atom(self.as_nat(iv)))))
+            env2 = dict(env)
+            env2[name] = Val("V", lname(name), inplace=True)
+            return wrap(binds, self.block(rest, env2, k))
+        ok = isinstance(t.value, ast.Name) and t.value.id in env and env[t.value.id].kind == "MN" \
+            and env[t.value.id].inplace and not env[t.value.id].wide and isinstance(sl, ast.Tuple) and len(sl.elts) == 2 \
+            and isinstance(sl.elts[0], ast.Slice) and sl.elts[0].lower is None and sl.elts[0].upper is None \
+            and sl.elts[0].step is None and isinstance(sl.elts[1], ast.Slice) and isinstance(st.op, (ast.Mult, ast.Div))
+        if not ok:
+            raise Problem("augmented assignment to %s (%s)" % (ast.unparse(t), where))
+        name = t.value.id
+        binds, c = self.tx(st.value, env)
+        c = self.as_scalar(binds, c, "factor of an array (%s)" % where)
+        lo, hi = self.slice_bounds(binds, sl.elts[1], env, where)
+        op = "*" if isinstance(st.op, ast.Mult) else "/"
+        env2 = dict(env)
+        env2[name] = Val("MN", lname(name), inplace=True)
+        return wrap(binds, Let(lname(name), "Rt.mapCols (fun x => x %s %s) %s %s %s" % (op, atom(c.code), lname(name), lo, hi),
+                               self.block(rest, env2, k)))
+
+    def const_array(self, node):
+        """phase 4 (pyalgebraic): a module constant that is a 1-D array literal -> (Lean name, exact values) or None"""
+        if not (isinstance(node, ast.Name) and node.id in self.mod.consts and node.id not in self.locals_):
+            return None
+        e = self.mod.consts[node.id]
+        if not (isinstance(e, ast.Call) and isinstance(e.func, ast.Attribute) and e.func.attr in ("asfortranarray", "array")
+                and isinstance(e.func.value, ast.Name) and self.mod.aliases.get(e.func.value.id) == "numpy"
+                and len(e.args) == 1 and not e.keywords and isinstance(e.args[0], ast.List) and e.args[0].elts):
+            return None
+        vals = []
+        for x in e.args[0].elts:
+            if isinstance(x, ast.Call) and isinstance(x.func, ast.Attribute) and x.func.attr == "fromhex" \
+                    and isinstance(x.func.value, ast.Name) and x.func.value.id == "float" and len(x.args) == 1 \
+                    and not x.keywords and isinstance(x.args[0], ast.Constant) and isinstance(x.args[0].value, str):
+                try:
+                    f = float.fromhex(x.args[0].value)
+                except ValueError:
+                    return None
+                if f != f or f in (float("inf"), float("-inf")):
+                    return None
+                vals.append(Fr(f))
+            else:
+                c = self.const_eval(x)
+                if c is None:
+                    return None
+                vals.append(c)
+        lean = "%s.%s" % (self.modname, node.id.lstrip("_"))
+        table = self.tr.__dict__.setdefault("const_arrays", {})
+        if lean in table and table[lean][0] != (self.modname, node.id):
+            raise Problem("module constants %s and %s get the same Lean name" % (node.id, table[lean][0][1]))
+        table[lean] = ((self.modname, node.id), vals)
+        return lean, vals
+
     def dim_nat(self, v):
         return self.as_nat(v) if self.natlike(v) else "Int.toNat %s" % atom(self.as_int(v))
 
@@ -2289,6 +3012,22 @@ class FunctionTranslator:
             # (`Err.badInput`, see `need`)
             env2[target.id] = Val("none", "none")
             return self.block(rest, env2, k)
+        if isinstance(target, ast.Name) and v.kind == "none" and isinstance(value, ast.Constant) and not binds \
+                and target.id != "_":
+            # phase 4 (pyalgebraic): `x = None`: x is a maybe-None variable once a loop / an if gives it a value
+            env2[target.id] = Val("none", "none")
+            return self.block(rest, env2, k)
+        if isinstance(target, ast.Name) and target.id in getattr(self, "int_vars", set()) and v.kind == "S" \
+                and v.intval is not None and not binds:
+            # phase 4 (pyalgebraic): an integer constant assigned to a variable that holds a Python int elsewhere
+            v = Val("N", "(%d : Nat)" % v.intval) if v.intval >= 0 else Val("I", "(%d : Int)" % v.intval)
+        if isinstance(target, ast.Name) and v.kind == "VB" and target.id != "_":
+            # phase 4 (pyalgebraic): a boolean array bound to a name (`real_inds = np.abs(..) < ..`)
+            env2[target.id] = Val("VB", lname(target.id))
+            if binds and binds[-1][0] == "bind" and binds[-1][1] == v.code:
+                binds = binds[:-1] + [("bind", lname(target.id), binds[-1][2])]
+                return wrap(binds, self.block(rest, env2, k))
+            return wrap(binds, Let(lname(target.id), v.code, self.block(rest, env2, k)))
         if isinstance(target, ast.Name):
             if v.kind in ("none", "nan") or v.kind == "VB":
                 raise Problem("assignment of a value of kind %r (%s)" % (v.kind, where))
@@ -2316,6 +3055,11 @@ class FunctionTranslator:
                 binds = binds[:-1] + [("bind", n, binds[-1][2])]
                 return wrap(binds, self.block(rest, env2, k))
             return wrap(binds, Let(n, v.code, self.block(rest, env2, k)))
+        if self.modname == "algebraic_intersection" and isinstance(target, (ast.Tuple, ast.List)) and v.kind == "C" and all(
+                isinstance(e, (ast.Tuple, ast.List)) and len(e.elts) == 1 and isinstance(e.elts[0], ast.Name)
+                for e in target.elts):
+            # phase 4 (pyalgebraic): `(x,), (y,) = <d x 1 array>`: every row has exactly one entry
+            target = ast.Tuple(elts=[e.elts[0] for e in target.elts], ctx=ast.Store())
         if isinstance(target, (ast.Tuple, ast.List)):
             names = []
             if len(target.elts) == 2 and v.kind == "C" and all(
@@ -2335,6 +3079,11 @@ class FunctionTranslator:
                 kinds = list(v.kind[1])
             elif v.kind == "P":
                 kinds = ["S", "S"]
+            elif v.kind in ("V", "C") and 2 <= len(names) <= 4 and self.modname == "algebraic_intersection":        # phase 4 (pyalgebraic)
+                t = self.tmp()
+                binds.append(("bind", t, "Rt.unpack%d %s" % (len(names), atom(v.code))))
+                kinds = ["S"] * len(names)
+                v = Val(("tuple", tuple(kinds)), t)
             elif v.kind == "V" and all(n == "_" or lname(n) == n for n in names):
                 # phase 4: `a, b, c = <1-D array>`: exactly that many entries (ValueError otherwise; here badInput)
                 for n in names:
@@ -2545,7 +3294,7 @@ class FunctionTranslator:
             if isinstance(node.value, bool):
                 return [], Val("B", "true" if node.value else "false")
             raise Problem("constant %r (%s)" % (node.value, where))
-        if isinstance(node, ast.Name) and node.id not in env and node.id not in self.locals_ \
+        if self.modname != "algebraic_intersection" and isinstance(node, ast.Name) and node.id not in env and node.id not in self.locals_ \
                 and node.id in self.mod.consts and self.array_const(self.mod.consts[node.id]) is not None:
             # phase 4: a module-level array constant `NAME = np.asfortranarray(<literal>, dtype=...) [/ c]`
             kind, rows = self.array_const(self.mod.consts[node.id])
@@ -2557,6 +3306,39 @@ class FunctionTranslator:
                 self.tr.tables[cname] = ("List K", "[" + ", ".join(lit(x) for x in rows) + "]",
                                          "%s.%s" % (self.modname, node.id))
             return [], Val(kind, "(%s : %s)" % (cname, "List (List K)" if kind == "MN" else "List K"))
+        if self.modname == "algebraic_intersection" and isinstance(node, ast.Name) and node.id not in env and node.id not in self.locals_ and node.id in self.mod.consts \
+                and isinstance(self.mod.consts[node.id], ast.Attribute) and isinstance(self.mod.consts[node.id].value, ast.Attribute) \
+                and isinstance(self.mod.consts[node.id].value.value, ast.Name):
+            # phase 4 (pyalgebraic): `_DISJOINT = geometric_intersection.BoxIntersectionType.DISJOINT`
+            e = self.mod.consts[node.id]
+            al = self.mod.aliases.get(e.value.value.id)
+            if al is not None and al not in ("numpy", "bisect"):
+                other = self.tr.module(al)
+                cls, attr = e.value.attr, e.attr
+                if cls in other.classes and attr in other.classes[cls]:
+                    name = "%s.%s" % (cls, attr)
+                    if self.tr.enums.get(name, other.classes[cls][attr]) != other.classes[cls][attr]:
+                        raise Problem("two enum classes named %s (%s)" % (cls, where))
+                    self.tr.enums[name] = other.classes[cls][attr]
+                    return [], Val("E", name)
+        if self.modname == "algebraic_intersection" and isinstance(node, ast.Name) and node.id not in env and self.const_array(node) is not None:
+            return [], Val("V", "(%s : List K)" % self.const_array(node)[0])       # phase 4 (pyalgebraic)
+        if self.modname == "algebraic_intersection" and isinstance(node, ast.ListComp):                                          # phase 4 (pyalgebraic)
+            if len(node.generators) != 1 or node.generators[0].ifs or node.generators[0].is_async \
+                    or not isinstance(node.generators[0].target, ast.Name):
+                raise Problem("list comprehension of this form (%s)" % where)
+            gen = node.generators[0]
+            ca = None if (isinstance(gen.iter, ast.Name) and gen.iter.id in env) else self.const_array(gen.iter)
+            if ca is None or gen.target.id in env or gen.target.id == "_":
+                raise Problem("list comprehension over something else than a module constant array (%s)" % where)
+            binds, cs = [], []
+            for c in ca[1]:                      # unrolled, in order
+                env2 = dict(env)
+                env2[gen.target.id] = Val("S", lit(c))
+                b, v = self.tx(node.elt, env2)
+                binds += b
+                cs.append(self.as_scalar(binds, v, "entry of a list of numbers (%s)" % where).code)
+            return binds, Val("V", "[" + ", ".join(cs) + "]")
         if isinstance(node, ast.Name):
             if node.id in env and env[node.id].kind == "MR":
                 raise Problem("array %s is used before its second block of rows is assigned (%s)" % (node.id, where))
@@ -2647,6 +3429,8 @@ class FunctionTranslator:
                     return binds, Val("I", "-%s" % atom(self.as_int(v)))
                 if v.kind == "C":
                     return binds, Val("C", "List.map (fun x => -x) %s" % atom(v.code))
+                if v.kind == "V":                # phase 4 (pyalgebraic)
+                    return binds, Val("V", "List.map (fun x => -x) %s" % atom(v.code))
                 v = self.need(binds, v, "S", "operand of unary - (%s)" % where)
                 return binds, Val("S", "-%s" % atom(v.code))
             if isinstance(node.op, ast.Not):
@@ -2656,10 +3440,25 @@ class FunctionTranslator:
                     raise Problem("`not` of kind %r (%s)" % (v.kind, where))
                 return binds, Val("B", "!%s" % atom(v.code), prop=("¬ %s" % atom(v.prop)) if v.prop else None)
             raise Problem("unary operator (%s)" % where)
+        if isinstance(node, ast.BinOp) and (isinstance(node.left, ast.List) or isinstance(node.right, ast.List)):
+            # phase 4 (pyalgebraic): a Python list literal in arithmetic: only `[c] * n` (repetition), as a 1-D array
+            if not (isinstance(node.op, ast.Mult) and isinstance(node.left, ast.List) and len(node.left.elts) == 1):
+                raise Problem("arithmetic with a list literal (%s)" % where)
+            binds, c = self.tx(node.left.elts[0], env)
+            c = self.as_scalar(binds, c, "entry of a list of numbers (%s)" % where)
+            b2, n = self.tx(node.right, env)
+            binds += b2
+            if not self.is_int(n):
+                raise Problem("list repeated a number of times of kind %r (%s)" % (n.kind, where))
+            return binds, Val("V", "List.replicate %s %s" % (atom(self.dim_nat(n)), atom(c.code)))
         if isinstance(node, ast.BinOp):
             binds, a = self.tx(node.left, env)
             b2, b = self.tx(node.right, env)
             binds += b2
+            if isinstance(node.op, ast.BitAnd) and a.kind == "VB" and b.kind == "VB":      # phase 4 (pyalgebraic)
+                t = self.tmp()
+                binds.append(("bind", t, "Rt.band %s %s" % (atom(a.code), atom(b.code))))
+                return binds, Val("VB", t)
             ops = {ast.Add: "+", ast.Sub: "-", ast.Mult: "*", ast.Div: "/"}
             op = ops.get(type(node.op))
             # phase 4 (pyclassify): a maybe-None int used in int arithmetic (`TypeError` on None = `Rt.unwrap`)
@@ -2710,9 +3509,37 @@ class FunctionTranslator:
             if op == "*" and b.kind == "MN" and a.kind in ("S", "I", "N"):
                 a = self.as_scalar(binds, a, "factor of an array (%s)" % where)
                 return binds, Val("MN", "Rt.mmap (fun x => %s * x) %s" % (atom(a.code), atom(b.code)))
+            if op in "+-" and a.kind == "MN" and not a.wide and b.kind in ("S", "I", "N") and not b.unit:    # phase 4 (pyalgebraic)
+                b = self.as_scalar(binds, b, "right operand of %s (%s)" % (op, where))
+                return binds, Val("MN", "Rt.mmap (fun x => x %s %s) %s" % (op, atom(b.code), atom(a.code)))
             if op in "*/" and a.kind == "MN" and b.kind in ("S", "I", "N"):
                 b = self.as_scalar(binds, b, "factor of an array (%s)" % where)
                 return binds, Val("MN", "Rt.mmap (fun x => x %s %s) %s" % (op, atom(b.code), atom(a.code)))
+            if a.kind == "VC" and b.kind in ("S", "I", "N") and not b.unit and op in "+-":      # phase 4 (pyalgebraic)
+                b = self.as_scalar(binds, b, "right operand of %s (%s)" % (op, where))
+                return binds, Val("VC", "List.map (fun z => (z.1 %s %s, z.2)) %s" % (op, atom(b.code), atom(a.code)))
+            if b.kind == "VC" and a.kind in ("S", "I", "N") and not a.unit and op == "+":         # phase 4 (pyalgebraic)
+                a = self.as_scalar(binds, a, "left operand of %s (%s)" % (op, where))
+                return binds, Val("VC", "List.map (fun z => (%s + z.1, z.2)) %s" % (atom(a.code), atom(b.code)))
+            if a.kind == "VC" and b.kind == "VC" and op == "/":                                   # phase 4 (pyalgebraic)
+                t = self.tmp()
+                binds.append(("bind", t, "Rt.czip Rt.cdiv %s %s" % (atom(a.code), atom(b.code))))
+                return binds, Val("VC", t)
+            if a.kind == "V" and b.kind in ("S", "I", "N") and not b.unit:        # phase 4 (pyalgebraic)
+                b = self.as_scalar(binds, b, "right operand of %s (%s)" % (op, where))
+                r = Val("V", "List.map (fun x => x %s %s) %s" % (op, atom(b.code), atom(a.code)))
+                r.owned = True                   # a fresh array
+                return binds, r
+            if b.kind == "V" and a.kind in ("S", "I", "N") and not a.unit:        # phase 4 (pyalgebraic)
+                a = self.as_scalar(binds, a, "left operand of %s (%s)" % (op, where))
+                return binds, Val("V", "List.map (fun x => %s %s x) %s" % (atom(a.code), op, atom(b.code)))
+            if a.kind == "M2N" and a.rows is not None and b.kind == "C" and b.comps is not None and len(b.comps) == 2 \
+                    and op in "+-":                                                # phase 4 (pyalgebraic)
+                self.struct_used |= set(a.rows)
+                r = Val("MN", "[List.map (fun x => x %s %s) %s, List.map (fun x => x %s %s) %s]"
+                        % (op, atom(b.comps[0]), a.rows[0], op, atom(b.comps[1]), a.rows[1]))
+                r.owned = True                   # a fresh array
+                return binds, r
             if self.is_int(a) and self.is_int(b) and op != "/":
                 if op in "+*" and self.natlike(a) and self.natlike(b):
                     return binds, Val("N", "%s %s %s" % (atom(self.as_nat(a)), op, atom(self.as_nat(b))))
@@ -2788,6 +3615,10 @@ class FunctionTranslator:
         binds, base = self.tx(node.value, env)
         if node.attr == "shape":
             return binds, self.shape_of(binds, base, where)
+        if base.kind == "V" and node.attr == "size":                       # phase 4 (pyalgebraic)
+            return binds, Val("N", "List.length %s" % atom(base.code))
+        if base.kind == "VC" and node.attr in ("real", "imag"):            # phase 4 (pyalgebraic)
+            return binds, Val("V", "List.map (fun z => z.%d) %s" % (1 if node.attr == "real" else 2, atom(base.code)))
         if base.kind == "MN" and node.attr == "T":
             return binds, Val("MN", "Model.transpose %s" % atom(base.code))
         if base.kind == "MN" and node.attr == "size":          # phase 4 (pypipeline): number of entries
@@ -2839,6 +3670,9 @@ class FunctionTranslator:
                 and isinstance(node.func.value, ast.Name) and self.mod.aliases.get(node.func.value.id) == "numpy"):
             return None
         kw = {k.arg: k.value for k in node.keywords}
+        if len(node.args) == 1 and set(kw) <= {"order"} and isinstance(node.args[0], ast.Tuple) and node.args[0].elts \
+                and self.const_int(node.args[0].elts[-1]) == 0 and len(node.args[0].elts) <= 2:
+            return None                         # phase 4 (pyalgebraic): an array without entries is a value (see prim_call)
         if len(node.args) == 1 and set(kw) <= {"order"} and isinstance(node.args[0], ast.Tuple) \
                 and len(node.args[0].elts) == 1 and self.const_int(node.args[0].elts[0]) == 2:
             return "P"
@@ -2924,6 +3758,17 @@ class FunctionTranslator:
             # phase 4 (pypipeline): `A == c` entry by entry (only `np.all` consumes it: the order of the entries is immaterial)
             return binds, Val("VB", "List.map (fun x => decide (x = %s)) (List.flatten %s)"
                               % (atom(vals[1].code), atom(vals[0].code)))
+        if len(vals) == 2 and {vals[0].kind, vals[1].kind} == {"V", "S"} and not (vals[0].unit or vals[1].unit) \
+                and isinstance(node.ops[0], (ast.Lt, ast.Gt, ast.LtE, ast.GtE)):
+            # phase 4 (pyalgebraic): a 1-D array compared with a number, entry by entry
+            op = node.ops[0]
+            vfirst = vals[0].kind == "V"
+            arr, num = (vals[0], vals[1]) if vfirst else (vals[1], vals[0])
+            l, r = ("x", atom(num.code)) if vfirst else (atom(num.code), "x")
+            if isinstance(op, (ast.Gt, ast.GtE)):
+                l, r = r, l                       # a > b  is  b < a
+            rel = "<" if isinstance(op, (ast.Lt, ast.Gt)) else "≤"
+            return binds, Val("VB", "List.map (fun x => decide (%s %s %s)) %s" % (l, rel, r, atom(arr.code)))
         if len(vals) == 2 and vals[0].kind in ("C", "V") and isinstance(node.ops[0], ast.Eq) \
                 and vals[1].kind == "S":
             return binds, Val("VB", "List.map (fun x => decide (x = %s)) %s" % (atom(vals[1].code), atom(vals[0].code)))
@@ -2939,6 +3784,8 @@ class FunctionTranslator:
                 else:
                     raise Problem("comparison other than < / > with a possibly infinite operand (%s)" % where)
             return binds, Val("B", " && ".join(atom(c) if len(codes) > 1 else c for c in codes))
+        if len(vals) == 2 and vals[0].kind == "E" and vals[1].kind == "E" and isinstance(node.ops[0], (ast.Eq, ast.NotEq)):
+            vals = [Val("N", v.code) for v in vals]          # phase 4 (pyalgebraic): enum members are their integers
         if all(self.is_int(v) for v in vals):
             if all(self.natlike(v) for v in vals):
                 vals = [Val("N", self.as_nat(v)) for v in vals]
@@ -3078,6 +3925,17 @@ class FunctionTranslator:
     def subscript(self, node, env, where):
         binds, base = self.tx(node.value, env)
         sl = node.slice
+        if self.modname == "algebraic_intersection" and is_opt(base.kind) and base.kind[2] == "none" and base.kind[1] in ("V", "MN"):
+            # phase 4 (pyalgebraic): subscript of a maybe-None array (`TypeError` on None)
+            base = self.need(binds, base, base.kind[1], "subscripted value (%s)" % where)
+        if self.modname == "algebraic_intersection" and base.kind == "MN" and not base.wide and isinstance(sl, ast.Tuple) and len(sl.elts) == 2 \
+                and isinstance(sl.elts[1], ast.Slice) and sl.elts[1].lower is None and sl.elts[1].upper is None \
+                and sl.elts[1].step is None and self.const_index_opt(sl.elts[0]) is not None \
+                and self.const_index_opt(sl.elts[0]) >= 0:
+            # phase 4 (pyalgebraic): `m[i, :]` = row i of a 2-D array (`IndexError`: `badInput`)
+            t = self.tmp()
+            binds.append(("bind", t, "Rt.lidx %s %d" % (atom(base.code), self.const_index_opt(sl.elts[0]))))
+            return binds, Val("V", t)
         if base.kind == "P":
             i = self.const_index(sl, where)
             if i not in (0, 1):
@@ -3228,6 +4086,61 @@ class FunctionTranslator:
             prim = ("Rt.idx %s " + atom(jv.code)) if jv.kind == "N" else ("Rt.idxI %s " + atom(self.as_int(jv)))
             binds += [("bind", a, prim % base.rows[0]), ("bind", b, prim % base.rows[1])]
             return binds, Val("P", "(%s, %s)" % (a, b), comps=[a, b])
+        if base.kind == "M2N" and base.rows is not None and isinstance(sl, ast.Tuple) and len(sl.elts) == 2 \
+                and isinstance(sl.elts[1], ast.Slice) and sl.elts[1].lower is None and sl.elts[1].upper is None \
+                and sl.elts[1].step is None and isinstance(sl.elts[0], ast.List) and len(sl.elts[0].elts) == 1 \
+                and self.const_index_opt(sl.elts[0].elts[0]) in (0, 1):
+            # phase 4 (pyalgebraic): `nodes[[i], :]` = the one-row array holding row i
+            self.struct_used |= set(base.rows)
+            return binds, Val("MN", "[%s]" % base.rows[self.const_index_opt(sl.elts[0].elts[0])])
+        if base.kind == "M2N" and base.rows is not None and isinstance(sl, ast.Tuple) and len(sl.elts) == 2 \
+                and isinstance(sl.elts[1], ast.Slice) and sl.elts[1].lower is None and sl.elts[1].upper is None \
+                and sl.elts[1].step is None and self.const_index_opt(sl.elts[0]) in (0, 1, -1, -2):
+            # phase 4 (pyalgebraic): `nodes[i, :]` = row i
+            self.struct_used |= set(base.rows)
+            return binds, Val("V", base.rows[self.const_index_opt(sl.elts[0]) % 2])
+        if base.kind == "MN" and not base.wide and isinstance(sl, ast.Tuple) and len(sl.elts) == 2 \
+                and not any(isinstance(x, (ast.Slice, ast.List)) for x in sl.elts):
+            # phase 4 (pyalgebraic): `x[i, j]` of a 2-D array
+            b2, iv = self.tx(sl.elts[0], env)
+            b3, jv = self.tx(sl.elts[1], env)
+            binds += b2 + b3
+            if not (self.is_int(iv) and self.is_int(jv)):
+                raise Problem("cell of a 2-D array with indices of kinds %r, %r (%s)" % (iv.kind, jv.kind, where))
+            t = self.tmp()
+            binds.append(("bind", t, "Rt.getCell %s %s %s" % (atom(base.code), atom(self.as_int(iv)), atom(self.as_int(jv)))))
+            return binds, Val("S", t)
+        if base.kind == "VC" and not isinstance(sl, (ast.Tuple, ast.Slice)):
+            # phase 4 (pyalgebraic): `z[mask]` of a 1-D complex array
+            b2, iv = self.tx(sl, env)
+            binds += b2
+            if iv.kind != "VB":
+                raise Problem("index of kind %r into a complex array (%s)" % (iv.kind, where))
+            t = self.tmp()
+            binds.append(("bind", t, "Rt.mask %s %s" % (atom(base.code), atom(iv.code))))
+            return binds, Val("VC", t)
+        if base.kind == "V" and isinstance(sl, ast.Slice):
+            # phase 4 (pyalgebraic): `v[lo:hi]`, `v[::-1]` of a 1-D array
+            if sl.lower is None and sl.upper is None and self.const_int(sl.step) == -1:
+                return binds, Val("V", "List.reverse %s" % atom(base.code))
+            lo, hi = self.slice_bounds(binds, sl, env, where)
+            return binds, Val("V", "Rt.slice %s %s %s" % (atom(base.code), lo, hi))
+        if base.kind == "V" and not isinstance(sl, (ast.Tuple, ast.Slice)):
+            # phase 4 (pyalgebraic): `v[i]` of a 1-D array
+            b2, iv = self.tx(sl, env)
+            binds += b2
+            if iv.kind == "VB":                  # `v[mask]`
+                t = self.tmp()
+                binds.append(("bind", t, "Rt.mask %s %s" % (atom(base.code), atom(iv.code))))
+                return binds, Val("V", t)
+            if not self.is_int(iv):
+                raise Problem("index of kind %r into a 1-D array (%s)" % (iv.kind, where))
+            t = self.tmp()
+            if self.natlike(iv):
+                binds.append(("bind", t, "Rt.idx %s %s" % (atom(base.code), atom(self.as_nat(iv)))))
+            else:
+                binds.append(("bind", t, "Rt.idxI %s %s" % (atom(base.code), atom(self.as_int(iv)))))
+            return binds, Val("S", t)
         if base.kind in ("M22", "M2N") and isinstance(sl, ast.Tuple) and len(sl.elts) == 2:
             first, second = sl.elts
             full = isinstance(first, ast.Slice) and first.lower is None and first.upper is None and first.step is None
@@ -3263,6 +4176,10 @@ class FunctionTranslator:
     def call(self, node, env, where, stmt=False):
         f = node.func
         target = None          # ("fn", module, name) | ("np", dotted) | ("builtin", name)
+        if isinstance(f, ast.Name) and f.id not in env and f.id in getattr(self, "fn_alias", {}):
+            if stmt:                                 # phase 4 (pyalgebraic): call through a local name of an external function
+                raise Problem("call whose result is discarded (%s)" % where)
+            return self.abstract_call(node, self.fn_alias[f.id][0], self.fn_alias[f.id][1], env, where)
         if not stmt and isinstance(f, ast.Attribute) and f.attr == "ravel" and \
                 not (isinstance(f.value, ast.Name) and f.value.id not in env):
             # phase 4 (pyclassify): `x.ravel(order="F")` of a `d x 1` array: the 1-D array of its d entries (a view)
@@ -3501,6 +4418,10 @@ class FunctionTranslator:
                 v = self.as_scalar(binds, v, "argument of %s (%s)" % (fn, where))
             if want == "SHAPE" and v.kind in ("OSUB", "LIN"):        # phase 4 (pypipeline): an object as a candidate
                 v = Val("SHAPE", "Rt.PyShape.%s %s" % ("sub" if v.kind == "OSUB" else "lin", atom(v.code)))
+            if want == "N" and self.natlike(v) and self.modname == "algebraic_intersection":                  # phase 4 (pyalgebraic)
+                v = Val("N", self.as_nat(v))
+            if want == "MN" and v.kind == "M2N":                 # phase 4 (pyalgebraic): a 2 x N array is a 2-D array
+                v = Val("MN", v.code)
             if v.kind != want:
                 raise Problem("argument of %s: kind %r where %r is required (%s)" % (fn, v.kind, kd, where))
             args.append(atom(v.code))
@@ -3552,6 +4473,10 @@ class FunctionTranslator:
             elif kd == "S1":
                 if not (v.kind == "S" and v.unit):
                     raise Problem("argument %s of %s must be a one-entry array (%s)" % (pn, fn, where))
+            elif kd == "VW":                                     # phase 4 (pyalgebraic)
+                if isinstance(a, ast.Name) or v.kind != "V":
+                    raise Problem("argument %s of %s is overwritten in place: it must be a fresh 1-D array, not a variable "
+                                  "(%s)" % (pn, fn, where))
             elif kd == "M22" and v.kind == "MN" and not v.wide:
                 t = self.tmp()                        # phase 4: the shape is checked at the call
                 binds.append(("bind", t, "Rt.asM22 %s" % atom(v.code)))
@@ -3623,6 +4548,23 @@ class FunctionTranslator:
                     binds += b
                     comps.append(atom(self.need(binds, v, "S", "array entry (%s)" % where).code))
                 return binds, Val("P", "(%s, %s)" % (comps[0], comps[1]), comps=comps)
+            if self.modname == "algebraic_intersection" and len(elts) == 2 and all(isinstance(e, ast.List) and len(e.elts) == 1 and not isinstance(
+                    e.elts[0], (ast.List, ast.Tuple, ast.Starred)) for e in elts):
+                # phase 4 (pyalgebraic): `[[a], [b]]`, a 2 x 1 column
+                comps = []
+                for e in elts:
+                    b, v = self.tx(e.elts[0], env)
+                    binds += b
+                    comps.append(atom(self.need(binds, v, "S", "array entry (%s)" % where).code))
+                return binds, Val("C", "[%s, %s]" % (comps[0], comps[1]), comps=comps)
+            if len(elts) >= 3 and not any(isinstance(e, (ast.List, ast.Tuple, ast.Starred)) for e in elts):
+                # phase 4 (pyalgebraic): a 1-D array literal with three or more entries
+                cs = []
+                for e in elts:
+                    b, v = self.tx(e, env)
+                    binds += b
+                    cs.append(self.as_scalar(binds, v, "array entry (%s)" % where).code)
+                return binds, Val("V", "[" + ", ".join(cs) + "]")
             if len(elts) >= 1 and all(isinstance(e, ast.List) and len(e.elts) == 1 for e in elts):
                 rows = []              # phase 4 (pypipeline): a d x 1 literal `[[a], [b]]` as a 2-D array
                 for r in elts:
@@ -3633,8 +4575,9 @@ class FunctionTranslator:
             raise Problem("array literal of unsupported shape (%s)" % where)
         if target[0] == "np" and name == "empty" and len(node.args) == 1 and set(kw) <= {"order"} \
                 and isinstance(node.args[0], ast.Tuple) and len(node.args[0].elts) == 2 \
-                and self.const_int(node.args[0].elts[1]) == 0 and (self.const_int(node.args[0].elts[0]) or 0) >= 1:
-            # phase 4 (pypipeline): `np.empty((d, 0))` has no entries: d empty rows
+                and self.const_int(node.args[0].elts[1]) == 0 and (self.const_int(node.args[0].elts[0]) or 0) >= 1 \
+                and not (self.modname == "algebraic_intersection" and self.const_int(node.args[0].elts[0]) <= 4):
+            # phase 4 (pypipeline): `np.empty((d, 0))` has no entries: d empty rows (merge: pyalgebraic writes the rows out, below)
             return [], Val("MN", "(List.replicate %d [] : List (List K))" % self.const_int(node.args[0].elts[0]))
         if target[0] == "np" and name in ("min", "max") and len(node.args) == 1 and set(kw) == {"axis"} and kw_is("axis", 1):
             binds, v = self.tx(node.args[0], env)
@@ -3657,11 +4600,88 @@ class FunctionTranslator:
             r = Val("S", v.code)
             r.unit = True
             return binds, r
+        if target[0] == "np" and name == "zeros" and len(node.args) == 1 and set(kw) <= {"order"} \
+                and isinstance(node.args[0], ast.Attribute) and node.args[0].attr == "shape":
+            # phase 4 (pyalgebraic): `np.zeros(v.shape)` for a 1-D array v
+            binds, v = self.tx(node.args[0].value, env)
+            if v.kind != "V":
+                raise Problem("np.zeros(x.shape) of a value of kind %r (%s)" % (v.kind, where))
+            return binds, Val("V", "List.replicate (List.length %s) (0 : K)" % atom(v.code))
+        if target[0] == "np" and name == "empty" and len(node.args) == 1 and set(kw) <= {"order"} \
+                and isinstance(node.args[0], ast.Tuple) and [self.const_int(e) for e in node.args[0].elts] == [0, 0]:
+            # phase 4 (pyalgebraic): the array without entries
+            return [], Val("MN", "([] : List (List K))")
+        if target[0] == "np" and name == "empty" and len(node.args) == 1 and set(kw) <= {"order"} \
+                and isinstance(node.args[0], ast.Tuple) and len(node.args[0].elts) == 2 \
+                and self.const_int(node.args[0].elts[0]) is not None and 0 <= self.const_int(node.args[0].elts[0]) <= 4 \
+                and self.const_int(node.args[0].elts[1]) == 0:
+            # phase 4 (pyalgebraic): `np.empty((d, 0))`: d rows without entries
+            return [], Val("MN", "([%s] : List (List K))" % ", ".join(["[]"] * self.const_int(node.args[0].elts[0])))
+        if target[0] == "np" and name == "empty" and len(node.args) == 1 and set(kw) <= {"order"} \
+                and isinstance(node.args[0], ast.Tuple) and [self.const_int(e) for e in node.args[0].elts] == [0]:
+            # phase 4 (pyalgebraic): the 1-D array without entries
+            return [], Val("V", "([] : List K)")
+        if target[0] == "np" and name == "hstack" and len(node.args) == 1 and not kw and isinstance(node.args[0], ast.List) \
+                and len(node.args[0].elts) == 2:
+            # phase 4 (pyalgebraic): concatenation of two 1-D arrays (a real one next to a complex one is converted)
+            binds, a = self.tx(node.args[0].elts[0], env)
+            b2, b = self.tx(node.args[0].elts[1], env)
+            binds += b2
+            if a.kind not in ("V", "VC") or b.kind not in ("V", "VC"):
+                raise Problem("np.hstack of kinds %r, %r (%s)" % (a.kind, b.kind, where))
+            kd = unify(a.kind, b.kind)
+            return binds, Val(kd, "%s ++ %s" % (atom(self.coerce(a, kd)), atom(self.coerce(b, kd))))
+        if target[0] == "np" and name == "linalg.eigvals" and len(node.args) == 1 and not kw:
+            # phase 4 (pyalgebraic): external, an explicit parameter of the generated definition
+            binds, v = self.tx(node.args[0], env)
+            if v.kind != "MN" or v.wide:
+                raise Problem("np.linalg.eigvals of a value of kind %r (%s)" % (v.kind, where))
+            self.use_extra(("numpy", "np_linalg_eigvals"))
+            return binds, Val("VC", "np_linalg_eigvals %s" % atom(v.code))
+        if target[0] == "np" and name == "eye" and len(node.args) == 1 and set(kw) <= {"order"}:
+            # phase 4 (pyalgebraic): the identity matrix
+            binds, v = self.tx(node.args[0], env)
+            if not self.natlike(v):
+                raise Problem("np.eye of a value of kind %r (%s)" % (v.kind, where))
+            return binds, Val("MN", "Model.identity %s" % atom(self.as_nat(v)))
+        if target[0] == "np" and name == "linalg.matrix_rank" and len(node.args) == 1 and not kw:
+            # phase 4 (pyalgebraic): external, an explicit parameter of the generated definition
+            binds, v = self.tx(node.args[0], env)
+            if v.kind != "MN" or v.wide:
+                raise Problem("np.linalg.matrix_rank of a value of kind %r (%s)" % (v.kind, where))
+            self.use_extra(("numpy", "np_linalg_matrix_rank"))
+            return binds, Val("N", "np_linalg_matrix_rank %s" % atom(v.code))
+        if target[0] == "np" and name == "argmin" and len(node.args) == 1 and not kw:
+            # phase 4 (pyalgebraic)
+            binds, v = self.tx(node.args[0], env)
+            if v.kind != "V":
+                raise Problem("np.argmin of a value of kind %r (%s)" % (v.kind, where))
+            t = self.tmp()
+            binds.append(("bind", t, "Rt.argmin %s" % atom(v.code)))
+            return binds, Val("N", t)
+        if target[0] == "np" and name == "sqrt" and len(node.args) == 1 and not kw:
+            # phase 4 (pyalgebraic): the abstract `sqrt`
+            binds, v = self.tx(node.args[0], env)
+            v = self.as_scalar(binds, v, "argument of np.sqrt (%s)" % where)
+            self.use_extra("sqrt")
+            return binds, Val("S", "sqrt %s" % atom(v.code))
+        if target[0] == "np" and name == "linalg.det" and len(node.args) == 1 and not kw:
+            # phase 4 (pyalgebraic): external, an explicit parameter of the generated definition
+            binds, v = self.tx(node.args[0], env)
+            if v.kind != "MN" or v.wide:
+                raise Problem("np.linalg.det of a value of kind %r (%s)" % (v.kind, where))
+            self.use_extra(("numpy", "np_linalg_det"))
+            return binds, Val("S", "np_linalg_det %s" % atom(v.code))
         if target[0] == "np" and name in ("zeros", "ones") and len(node.args) == 1 and set(kw) <= {"order"} \
                 and isinstance(node.args[0], ast.Tuple) and len(node.args[0].elts) == 2:
             binds, d0 = self.tx(node.args[0].elts[0], env)
             b2, d1 = self.tx(node.args[0].elts[1], env)
             binds += b2
+            if name == "zeros" and self.natlike(d0) and self.natlike(d1) and not (d1.kind == "S" and d1.intval == 1):
+                # phase 4 (pyalgebraic): the a x b zero array, created here (may be overwritten in place)
+                r = Val("MN", "Rt.mfill %s %s (0 : K)" % (atom(self.as_nat(d0)), atom(self.as_nat(d1))))
+                r.owned = True
+                return binds, r
             if d1.kind == "S" and d1.intval == 1 and name == "zeros" and self.natlike(d0):
                 r = Val("C", "List.replicate %s (0 : K)" % atom(self.as_nat(d0)))
                 r.owned = True
@@ -3684,6 +4704,11 @@ class FunctionTranslator:
             binds, v = self.tx(node.args[0], env)
             if v.kind == "MN" and target[0] == "np":
                 return binds, Val("MN", "Rt.mmap Model.absK %s" % atom(v.code))
+            if v.kind == "V" and target[0] == "np":          # phase 4 (pyalgebraic)
+                return binds, Val("V", "List.map Model.absK %s" % atom(v.code))
+            if v.kind == "VC" and target[0] == "np":         # phase 4 (pyalgebraic): modulus through the abstract sqrt
+                self.use_extra("sqrt")
+                return binds, Val("V", "List.map (fun z => sqrt (z.1 * z.1 + z.2 * z.2)) %s" % atom(v.code))
             v = self.need(binds, v, "S", "argument of abs (%s)" % where)
             return binds, Val("S", "Model.absK %s" % atom(v.code))
         if target == ("bisect", "bisect_left") and len(node.args) == 2 and not kw:
@@ -3910,7 +4935,7 @@ def rowZip (f : K → K → K) (r : List K) (m : List (List K)) : Except Err (Li
   if m.all (fun x => x.length == r.length) then .ok (m.map fun x => List.zipWith f r x) else .error .badInput
 
 """
-RUNTIME = RUNTIME.replace("end Rt\n", RUNTIME_P4 + "end Rt\n")
+RUNTIME = RUNTIME.replace("end Rt\n", RUNTIME_P4 + "end Rt\n", 1)     # merge: the FIRST `namespace Rt` block (pyalgebraic opens a second one)
 
 
 def p4_const_text(tr):
@@ -4565,6 +5590,9 @@ def main():
         enums += "/-! ## module-level array constants -/\n" + "".join(
             "/-- `%s` -/\ndef %s : %s :=\n  %s\n\n" % (src, n, ty, code) for n, (ty, code, src) in sorted(tr.tables.items()))
     enums += p4_const_text(tr)                         # phase 4 (pycurve): module-level constant arrays
+    for lean, ((cmod, cname), vals) in sorted(getattr(tr, "const_arrays", {}).items()):      # phase 4 (pyalgebraic)
+        enums += "/-- module constant `%s` of hazmat/%s.py (exact binary64 values) -/\ndef %s : List K :=\n  [%s]\n\n" % (
+            cname, cmod, lean, ",\n   ".join(lit(v) for v in vals))
     text = HEADER + RUNTIME + "\n" + enums + "/-! ## translated functions -/\n\n" + "\n".join(parts) + "\nend BezierVerif.Src.Py\n"
     old = None
     if os.path.exists(out):
